@@ -73,6 +73,8 @@ def _check_result(sim: Sim, res: Any, req_power: float, calls: list[dict[str, An
     failed_calls = [c for c in calls if c["outcome"] != "ok"]
     ok_calls = [c for c in calls if c["outcome"] == "ok"]
     call_desc = [(c["cid"], round(c["w"], 3), c["outcome"]) for c in calls]
+    # coverage of the 5^n outcome vectors (per number of addressed inverters), reported as `states` in the evidence
+    sim.model_states.add((category, len(calls), tuple(c["outcome"] for c in sorted(calls, key=lambda c: c["cid"]))))
     if exc_p != 0.0:
         sim.probe("excess_power_nonzero")
     if calls and len(failed_calls) == len(calls):
@@ -201,7 +203,7 @@ def _battery(sim: Sim) -> None:
     all_bats = frozenset(b for _, bats in groups for b in bats)
     total_incl = sum(min(sum(bdata[b]["power_inclusion_upper_bound"] for b in bats),
                          sum(idata[i]["active_power_inclusion_upper_bound"] for i in invs)) for invs, bats in groups)
-    nreq = ch.int_between("nreq", 4, 14)
+    nreq = ch.int_between("nreq", 4, sim.scale(14, 30))
     requests = []
     for _ in range(nreq):
         frac = ch.choice("power_frac", [0.5, 0.1, 0.9, 1.0, 1.3, 0.02, 0.3])
@@ -266,7 +268,7 @@ def _pv(sim: Sim) -> None:
     timeout_s = 1.0
     lower = {i: -float(ch.choice("pv_bound", [1000, 300, 5000, 0, 50])) for i in inv_ids}
     total = -sum(lower.values())
-    nreq = ch.int_between("nreq", 4, 14)
+    nreq = ch.int_between("nreq", 4, sim.scale(14, 30))
     requests = []
     for _ in range(nreq):
         frac = ch.choice("power_frac", [0.5, 0.1, 0.9, 1.0, 1.3, 0.02])
